@@ -13,14 +13,16 @@ use crate::alpha::error::Error;
 use crate::alpha::included;
 
 use enumset::EnumSet;
-use std::collections::HashSet;
+use std::collections::BTreeSet;
 
 /// Share public symbols between modules.
 pub fn expand(modules: &mut [(std::path::PathBuf, Vec<Declaration>)])
 {
 	let keys: Vec<std::path::PathBuf> =
 		modules.iter().map(|(k, _v)| k.clone()).collect();
-	let mut imports = HashSet::new();
+	// The order of this set decides the order of the imported declarations,
+	// and with that the order of the generated IR.
+	let mut imports = BTreeSet::new();
 
 	for (offset_of_includer, module) in modules.iter_mut().enumerate()
 	{
